@@ -429,7 +429,7 @@ pub fn check_def() -> PropertyCheck {
   PropertyCheck {
     id: "C04",
     scenarios: vec![Box::new(C04)],
-    runs: (200_000, 40_000_000),
+    runs: (400_000, 40_000_000),
     rule: "case = operator (merge, zip, combine_latest, with_latest_from, take_until, skip_until, sample, buffer; local and _threads) + merged timeline of <=12 events of two hot inputs (next/error/complete at any position, incl. events after the input's own terminal); non-trivial = both inputs speak; distinct = distinct (case, behaviour) hashes",
     assumptions: vec!["where the statement is silent (early completion of zip/combine_latest, sampler/notifier completion) every behaviour it allows is accepted"],
   }
